@@ -249,7 +249,8 @@ ADDED7 = {
     'C03': ' Round 5: CODEC-KEPT (GetCodec discards the codec it was handed only on paths that store a newly created one: the receive codec survives un-deflated frames inside a zlib stream).',
     'C04': ' Round 5: COUNT-DECIDES (a session\'s entry leaves a node\'s subscriber table only under a test of the count that would otherwise be stored).',
     'C06': ' Round 5: UNSUBSCRIBE-PAIR (every successful _subscriptions.RemovePathString is followed on every path by the -1 marks traversal for the same path) and MARKS-ALWAYS (the notify-on-set-parent argument of PutChild/InsertOrderedChild is never conditional or NULL).',
-    'C08': ' Last session: RECV-EXACT (Python transceiver: a recv() feeding an accumulator tested by len(acc) == want asks for want - len(acc)).',
+    'C05': ' Round 5: ONLY-COMMAS (once CanWildcardStringMatchMultipleValues raised its only-commas answer, no return inside the scan loop is reachable without the answer being lowered again; decided on the paths between the two, the NULL-out-parameter paths pruned).',
+    'C08': ' Last session: RECV-EXACT (Python transceiver: a recv() feeding an accumulator tested by len(acc) == want asks for want - len(acc)) and NULL-SLOT-AGREE (every NULL-tested MMGetFlattenedSize() site of MiniMessage.c gives the NULL sub-Message slot the same treatment).',
     'C11': ' Last session: NFDS-COVERS (the bound handed to select() is a running maximum over all descriptor sets), TIMEOUT-TOLERATED (the stock internal-thread loop gives up after a failed wait only where the status was found different from B_TIMED_OUT), CLEAR-FIRST (ICallbackMechanism::DispatchCallbacks clears its pending flag before it collects the work).',
     'C12': ' Round 5: ID-PER-BUFFER (every finished send buffer moves the message ID on).',
     'C19': ' Round 5: UNREGISTER-ATOMIC reads the decisions of || chains in join blocks (engine correction) and derives operand facts from them.',
@@ -261,7 +262,8 @@ _TECH7 = {
     'C03': '; must-follow of a new-codec store after every discard of the codec out-parameter',
     'C04': '; guard-reads-the-stored-value rule at the entry removal',
     'C06': '; must-follow pairing of unsubscribe and marks traversal; argument-shape rule on the attach calls',
-    'C08': '; Python-ast rule on accumulating recv() sites',
+    'C05': '; path enumeration between the raising of an out-parameter and the early returns of the scan loop',
+    'C08': '; Python-ast rule on accumulating recv() sites; sibling agreement of the NULL-slot alternatives in the C mini codec',
     'C11': '; reduction-shape rule on the select() bound; loop-exit edge atoms (status compared with B_TIMED_OUT); must-precede of the flag reset before the dispatch call',
     'C12': '; must-follow / same-block pairing of buffer completion and ID increment',
     'C20': '; must-precede of the detach call before the parent-field write; value-origin rule on the scheduled-time member',
